@@ -121,6 +121,7 @@ def main(argv):
         ctx.signatures = dict(getattr(findings_mod, 'SIGNATURES', {}))
     except ImportError:
         pass
+    ctx.signatures.update(getattr(mod, 'SIGNATURES', {}))
     common.use_repo()
 
     if mode == 'replay':
